@@ -1011,3 +1011,30 @@ def probe_delay_script(seed, idx, fam="probe_delay"):
                     opts_a=dict(link_mtu=link, tx_init=16384, tx_max=rng.choice([16384, 32768])), opts_b=dict(link_mtu=link),
                     net={"latency_us": lat}, rules=rules, rand_a=[gen(), gen()], rand_b=[gen(), gen()],
                     info={"class": "fair-lossy", "link": link, "drop_idx": drop_idx, "delay": delay})
+
+# ------------------------------------------------------------------ a peer that keeps talking to a closed connection (C08)
+def flood_after_close_script(seed, idx, fam="flood_close"):
+    """The application lets the stream go; the peer acknowledges the FIN, never sends its own, and keeps sending new data
+    (ignoring the window) for much longer than any timer: the connection must still end in bounded time."""
+    rng = random.Random(seed * 1000003 + idx * 61 + 41)
+    link = rng.choice([576, 1500])
+    mss = LINKS[link]
+    lat = 1000
+    rx = rng.choice([2 * mss, 4 * mss, 8 * mss])
+    st = peer_open_passive(lat, cid=rng.choice([300, 65535]), peer_isn=rng.choice([2000, 65533]), establish=True) \
+        if rng.random() < 0.5 else peer_open_active(lat, peer_isn=rng.choice([1000, 65532]))
+    if rng.random() < 0.5:
+        st += [{"op": "write", "ep": "a", "n": rng.choice([1, 600])}, sleep(lat + 10), peer("ack"), sleep(lat + 10)]
+    closer = rng.choice(["drop", "drop", "shutdown_drop_r"])
+    if closer == "drop":
+        st += [{"op": "drop", "ep": "a"}]
+    else:
+        st += [{"op": "shutdown", "ep": "a"}, {"op": "drop_r", "ep": "a"}]
+    st += [sleep(lat + 10), peer("ack"), sleep(lat + 10)]
+    gap = rng.choice([300000, 500000, 800000])
+    for _ in range(int(24 * SEC / gap)):
+        st += [peer("data", len=rng.choice([mss, 100])), sleep(gap)]
+    st += [{"op": "drop", "ep": "a"}, sleep(25 * SEC)]
+    return peer_script(f"{fam}/{idx}", seed * 89 + idx, st, opts=dict(link_mtu=link, rx_buf=rx, inactivity_ms=3000), lat=lat,
+                       rand=[rng.randrange(65536), rng.choice([1, 65534, rng.randrange(65536)]), rng.randrange(65536)],
+                       info={"rx": rx, "gap": gap, "closer": closer})
